@@ -222,6 +222,8 @@ def run(rep, tier):
                    "len(instructions) that returns; every result of get_instruction_index_from_offset is tested for None before use; a constant index into the "
                    "list returned by get_arglist is guarded by its length / count; every format string given to the %-based unary/binary/ternary helpers "
                    "(constant, or enumerated over the 3.11+ operator table) has the right placeholders and escapes every other '%'")
+    rep.rule("R7", "a parameter whose default is None and that some listing path really leaves at None (omitted, None passed, the caller's own optional handed on; "
+                   "least fixpoint over the reachable call sites) is tested for None before every use that needs a value (attribute, index, `in`, iteration, call, arithmetic)")
     rep.rule("R5", "the instruction records the listing renders are the decoder's: per (opcode table, opcode) the offset/width/operand (C02 rules), "
                    "the operand value and text (C03 rules) and the jump target and label set (C04 rules) agree with Lib/dis.py of that version")
     T = tables()
@@ -239,6 +241,34 @@ def run(rep, tier):
     rep.call_sites = sum(len(cg.sites[q]) for q in seen)
     for q in seen:
         rep.analysed(q)
+    # ---------------------------------------------------------------- R7 optional parameters on the listing paths
+    from .. import nullness
+    nullness.positive_control()
+    nroots = [r for r in (root, "xdis.disasm.disco", "xdis.bytecode.Bytecode.dis", "xdis.bytecode.Bytecode.__init__", "xdis.bytecode.Bytecode.__iter__",
+                          "xdis.bytecode.Bytecode.info", "xdis.instruction.Instruction.disassemble", "xdis.std._StdApi.dis") if r in repo.functions]
+    nseen = cg.reachable(nroots)
+    maybe, why = nullness.may_be_none(repo, cg, nseen, nroots)
+    n_guarded = 0
+    for q in sorted(nseen):
+        m_, fn_ = repo.functions[q]
+        ops = [p_ for p_ in nullness.optional_params(fn_) if (q, p_) in maybe]
+        if not ops:
+            continue
+        nn = nullness.Nullness(fn_, ops)
+        bad = nn.run()
+        n_guarded += nn.guarded
+        by = {}
+        for nm, node, how in bad:
+            by.setdefault(nm, []).append((how, node))
+        for p_ in ops:
+            hits_ = by.get(p_, [])
+            rep.ob("R7", q, "optional:%s" % p_, not hits_, expected="every use of %s that needs a value is preceded by a test for None" % p_,
+                   derived=[("%s at %s" % (how, ast.unparse(node)[:50])) for how, node in hits_[:3]] or "guarded or only handed on",
+                   where=repo.where(m_, hits_[0][1]) if hits_ else None,
+                   msg="%s may be None here (%s) and is used %s without a test: the listing aborts with a TypeError / AttributeError" % (
+                       p_, why.get((q, p_), "public operation, the argument is optional"), hits_[0][0] if hits_ else ""))
+    rep.floor("optional parameters that can be None on a listing path", len([1 for (q, p_) in maybe if q in nseen]), 20)
+    rep.floor("None-guarded uses of such parameters", n_guarded, 6)
     # ---------------------------------------------------------------- R1
     # printing is the *contract* of these (they print the text they are asked to show); they are reached only through name-based resolution
     contract = {"xdis.std._StdApi._print", "xdis.cross_dis.show_code"}
